@@ -50,6 +50,10 @@ pub enum BodyKind {
     Small,
     /// `Stream`: chunk, then Pending for `gap` ms, chunk, end
     Stream(u64),
+    /// the handler resolves to `Err`: 500 error response with an empty body
+    ErrEmpty,
+    /// the handler resolves to `Err`: 500 error response with a 2-byte body
+    ErrSmall,
 }
 
 #[derive(Clone, Debug, PartialEq, Eq)]
@@ -131,6 +135,8 @@ pub fn parse_case(line: &str) -> Result<Case, String> {
                         let b = match b.as_bytes().first() {
                             Some(b'e') => BodyKind::Empty,
                             Some(b's') => BodyKind::Small,
+                            Some(b'x') => BodyKind::ErrEmpty,
+                            Some(b'y') => BodyKind::ErrSmall,
                             Some(b't') => BodyKind::Stream(
                                 b[1..].parse::<u64>().map_err(|_| format!("bad stream gap {part}"))?,
                             ),
@@ -491,8 +497,13 @@ async fn drive(case: Case) -> Vec<Rec> {
                 BodyKind::Empty => Response::ok(),
                 BodyKind::Small => Response::ok().set_body(BoxBody::new(Bytes::from_static(b"ok"))),
                 BodyKind::Stream(gap) => Response::ok().set_body(BoxBody::new(GapBody { phase: 0, gap, sleep: None })),
+                // service errors go through `send_error_response`
+                BodyKind::ErrEmpty => return Err(Response::internal_server_error()),
+                BodyKind::ErrSmall => {
+                    return Err(Response::internal_server_error().set_body(BoxBody::new(Bytes::from_static(b"er"))))
+                }
             };
-            Ok::<_, std::convert::Infallible>(res)
+            Ok::<_, Response<BoxBody>>(res)
         }
     });
 
